@@ -1,16 +1,16 @@
 """C08 -- Length- and close-delimited response bodies arrive verbatim, never over-read."""
 from .lib import *
 
-RULE = ("scripts: GET (or HTTP/1.0 GET), response head with Content-Length N (N from {0,1,2,5,255,256,65535,65536,70000} "
+RULE = ("scripts: GET / DELETE / OPTIONS / CONNECT (answered by a non-2xx status) / POST whose late 100 Continue arrives in front of the response in the same window; response head with Content-Length N (N from {0,1,2,5,255,256,65535,65536,70000} "
         "and random; huge values 2^32+1, 2^64-1 with a partial body) or close-delimited (no framing header; Transfer-Encoding without a "
         "final chunked; chunked on an HTTP/1.0 response), followed by "
         "the body and by trailing bytes of a next response; arrival schedules all-at-once / 1-byte / random, output sizes "
-        "{0,1,2,3,random,large}; reads continue after the end. non-trivial = RecvBody reached and >= 1 byte delivered "
+        "{0,1,2,3,random,large}; reads continue after the end; a framed non-empty body must be entered (RecvBody). non-trivial = RecvBody reached and >= 1 byte delivered "
         "(or N = 0 handled); distinct = distinct op lists")
 TRUSTED_BASE = COMMON_TRUSTED_BASE
 ASSUMPTIONS = ["64-bit usize", "head parsing is C05's subject; here heads are simple and always arrive completely before the body phase starts"]
 
-_stats = {"framing": {}}
+_stats = {"framing": {}, "method": {}}
 NEXT = b"HTTP/1.1 200 OK\r\nContent-Length: 1\r\n\r\nZ"
 
 
@@ -56,12 +56,31 @@ def gen_one(rng, big):
     body = patt(blen, rng)
     trailing = NEXT if (n is not None and n <= 70000) or close else b""
     stream = head + body + trailing
-    ops = [op_new(rng.choice(["GET", "GET", "DELETE", "OPTIONS"]) if version != "1.0" or True else "GET", "1.1", "http", "a.test", "/", []),
-           "proceed", "write_head #4096", "proceed", "stream %s" % hx(stream),
-           "arrive %s" % num(len(head)), "try_response", "q_can_proceed", "proceed", "q_body_mode", "q_can_proceed"]
+    method = rng.choice(["GET", "GET", "DELETE", "OPTIONS", "CONNECT", "LATE100", "LATE100"])
+    if method == "CONNECT" and 200 <= status <= 299:
+        # a 2xx answer to CONNECT has no body; every other answer to CONNECT is framed like any response
+        status = rng.choice([404, 407, 500, 503])
+        head = render_response_head(version, status, b"OK", [f for f in fields if f[0] != b"Location"])
+        stream = head + body + trailing
+    _stats["method"][method] = _stats["method"].get(method, 0) + 1
+    pre = b""
+    if method == "LATE100":
+        # the client stopped waiting for 100 Continue and sent the body; the late 100 arrives in front of the response, in the same window
+        pre = b"HTTP/1.1 100 Continue\r\n\r\n"
+        stream = pre + stream
+        ops = [op_new("POST", "1.1", "http", "a.test", "/", [("expect", "100-continue"), ("content-length", "2")]), "proceed", "write_head #4096",
+               "proceed", rng.choice(["raw_try100 x", "raw_try100 %s" % hx(b"HTTP/1.1 1")]), "proceed", "write_body %s #100" % hx(b"hi"), "proceed",
+               "stream %s" % hx(stream)]
+        first = rng.choice([len(pre) + len(head), len(pre) + len(head), len(pre) + len(head) + min(3, blen), len(pre) - 3, len(pre)])
+        ops += ["arrive %s" % num(first), "try_response", "arrive %s" % num(max(0, len(pre) + len(head) - first)), "try_response", "try_response",
+                "q_can_proceed", "proceed", "q_body_mode", "q_can_proceed"]
+    else:
+        ops = [op_new(method, "1.1", "http", "a.test", "/", []),
+               "proceed", "write_head #4096", "proceed", "stream %s" % hx(stream),
+               "arrive %s" % num(len(head)), "try_response", "q_can_proceed", "proceed", "q_body_mode", "q_can_proceed"]
     # arrival + read schedule
     mode = rng.choice(["all", "one", "random", "random"])
-    remaining = len(stream) - len(head)
+    remaining = len(stream) - len(head) - len(pre)
     steps = 0
     total_target = blen + len(trailing)
     arrived = 0
@@ -85,7 +104,7 @@ def gen_one(rng, big):
         if mode == "all" and steps > 3 and rng.random() < 0.5:
             break
     ops += ["q_can_proceed", "read #100000", "read #100000", "q_can_proceed", "q_body_mode", "proceed", "q_must_close"]
-    return {"ops": ops, "meta": {"n": n, "head": len(head), "body": body.hex(), "trailing": len(trailing), "status": status}}
+    return {"ops": ops, "meta": {"n": n, "head": len(head), "body": body.hex(), "trailing": len(trailing), "status": status, "pre": len(pre)}}
 
 
 def generate(rng, tier, mult):
@@ -117,6 +136,8 @@ def oracle(script, obs):
     consumed = 0
     delivered = b""
     in_body = False
+    got_head = False
+    left_response = False
     close = n is None
     for i, op in enumerate(ops):
         if i >= len(obs):
@@ -131,16 +152,29 @@ def oracle(script, obs):
         elif p[0] == "arrive":
             arrived = min(len(stream), arrived + unnum(p[1]))
         elif p[0] == "try_response":
+            if got_head:
+                continue
+            if o.startswith("none #") and (meta.get("pre") or arrived < meta.get("pre", 0) + meta["head"]):
+                consumed += unnum(o.split(" ")[1])      # a late 100 Continue skipped (or nothing yet)
+                continue
             if not o.startswith("some "):
                 fails.append("op %d: head not returned: %s" % (i, o[:60]))
                 break
             used = parse_response_obs(o)[0]
-            if used != meta["head"]:
-                fails.append("op %d: head consumed %d, expected %d" % (i, used, meta["head"]))
-                break
             consumed += used
-        elif p[0] == "proceed" and o == "state RecvBody":
-            in_body = True
+            got_head = True
+            if consumed != meta.get("pre", 0) + meta["head"]:
+                fails.append("op %d: %d bytes consumed up to the end of the head, expected %d" % (i, consumed, meta.get("pre", 0) + meta["head"]))
+                break
+        elif p[0] == "proceed" and got_head and not left_response and o.startswith("state"):
+            left_response = True
+            expect_body = close or n > 0
+            if expect_body and o != "state RecvBody":
+                fails.append("op %d: a non-empty body is framed (%s) but the flow went to %s: the body bytes are left on the connection" % (
+                    i, "close-delimited" if close else "Content-Length %d" % n, o))
+                break
+            if o == "state RecvBody":
+                in_body = True
         elif p[0] == "proceed" and o.startswith("state") and in_body:
             in_body = False
             # proceeding out of the body state
@@ -164,8 +198,8 @@ def oracle(script, obs):
                 break
             consumed += ci
             delivered += data
-            if not close and consumed > meta["head"] + n:
-                fails.append("op %d: over-read: consumed %d beyond head+N=%d" % (i, consumed, meta["head"] + n))
+            if not close and consumed > meta.get("pre", 0) + meta["head"] + n:
+                fails.append("op %d: over-read: consumed %d beyond head+N=%d" % (i, consumed, meta.get("pre", 0) + meta["head"] + n))
                 break
         elif p[0] == "q_can_proceed" and in_body:
             can = (o == "true")
